@@ -737,4 +737,244 @@ theorem get_after_unset (v : V) (p : Path) (pre : Bool) (nv prev : V) (k : Bool)
   · exact absurd rfl ‹¬ V.missing.isMissing = true›
   · exact absurd rfl ‹¬ V.missing.isMissing = true›
 
+/-! ### a write leaves unrelated paths alone -/
+
+/-- two segments may address the same child: equal strings, or numerals with the same value
+    ("1", "01", "+1" all index element 1 of an array for `put`). -/
+def segAlias (a b : String) : Bool :=
+  a == b || (match atoi a, atoi b with
+    | some i, some j => i == j
+    | _, _ => false)
+
+/-- the paths part at some position before either ends (up to numeral aliasing): neither is a
+    prefix of the other. -/
+def diverge : Path → Path → Bool
+  | a :: p, b :: q => if segAlias a b then diverge p q else true
+  | _, _ => false
+
+/-- "unchanged, or was Missing and is now null (array padding)". -/
+def Stab (after before : V × Bool) : Prop :=
+  after = before ∨ (before = (.missing, false) ∧ after = (.null, false))
+
+theorem Stab.rfl' {a : V × Bool} : Stab a a := .inl rfl
+
+theorem stab_missing_of {a : V × Bool} {q : Path} {k : Bool} (h : Stab a (get .missing q false k)) :
+    Stab a (.missing, false) := by rw [get_missing] at h; exact h
+
+theorem get_guard (v : V) (b : String) (q : Path) (c k : Bool) (h : (b == "" && q.isEmpty) = true) :
+    get v (b :: q) c k = (.missing, false) := by
+  unfold get; simp [h]
+
+theorem getField_cons (kv : String × V) (r : List (String × V)) (b : String) (q : Path) (c k : Bool) :
+    getField (kv :: r) b q c k = if kv.1 == b then get kv.2 q c k else getField r b q c k := by
+  obtain ⟨k', v'⟩ := kv
+  rw [getField]
+
+theorem getField_nil (b : String) (q : Path) (c k : Bool) : getField [] b q c k = (.missing, false) := by
+  rw [getField]
+
+theorem getField_eraseIdx {fs : List (String × V)} {i : Nat} {kk : String} {old : V} {b : String}
+    (he : fs[i]? = some (kk, old)) (hne : (kk == b) = false) (q : Path) (c k : Bool) :
+    getField (fs.eraseIdx i) b q c k = getField fs b q c k := by
+  induction fs generalizing i with
+  | nil => rfl
+  | cons a r ih =>
+    cases i with
+    | zero =>
+      simp at he; subst he
+      simp [getField_cons, hne]
+    | succ n =>
+      simp at he
+      simp only [List.eraseIdx_cons_succ, getField_cons, ih he]
+
+theorem getField_append {fs : List (String × V)} (key : String) (nvc : V) (b : String) (q : Path) (c k : Bool) :
+    getField (fs ++ [(key, nvc)]) b q c k =
+      match fieldIndex fs b with
+      | some _ => getField fs b q c k
+      | none => if key == b then get nvc q c k else (.missing, false) := by
+  induction fs with
+  | nil => simp [getField_cons, getField_nil, fieldIndex]
+  | cons a r ih =>
+    simp only [List.cons_append, getField_cons, fieldIndex_cons]
+    by_cases h : (a.1 == b) = true
+    · simp [h]
+    · simp only [h, if_false, Bool.false_eq_true]
+      rw [ih]
+      cases fieldIndex r b <;> simp
+
+theorem getField_set {fs : List (String × V)} {i : Nat} {kk : String} {old : V} (nvc : V)
+    (he : fs[i]? = some (kk, old)) (b : String) (q : Path) (c k : Bool) :
+    getField (fs.set i (kk, nvc)) b q c k =
+      if fieldIndex fs b = some i then get nvc q c k else getField fs b q c k := by
+  rw [getField_eq, getField_eq, fieldIndex_set nvc he]
+  cases hj : fieldIndex fs b with
+  | none => simp
+  | some j =>
+    by_cases hji : j = i
+    · subst hji
+      have := fieldIndex_some_lt hj
+      simp [this]
+    · have : ¬ i = j := fun e => hji e.symm
+      simp [hji, List.getElem?_set_ne this]
+
+theorem segAlias_self (a : String) : segAlias a a = true := by simp [segAlias]
+
+theorem segAlias_atoi {a b : String} {i : Int} (ha : atoi a = some i) (hb : atoi b = some i) :
+    segAlias a b = true := by simp [segAlias, ha, hb]
+
+theorem diverge_cons (a b : String) (p q : Path) :
+    diverge (a :: p) (b :: q) = if segAlias a b then diverge p q else true := by
+  rw [diverge]
+
+theorem diverge_nil_left (q : Path) : diverge [] q = false := by
+  rw [diverge]; intros; simp_all
+
+theorem diverge_nil_right (p : Path) : diverge p [] = false := by
+  cases p <;> rfl
+
+/-- `put_other_path_stable`: a successful write (or unset) at `p` leaves what is read at any path
+    `q` that parts from `p` unchanged — except that array padding turns Missing into null. -/
+theorem put_other_path_stable (v : V) (p : Path) (x : V) (pre : Bool) (nv prev : V) (q : Path) (k : Bool)
+    (h : put v p x pre = .ok (nv, prev)) (hd : diverge p q = true) :
+    Stab (get nv q false k) (get v q false k) := by
+  fun_induction put v p x pre generalizing nv prev q <;> cases h
+  · rw [diverge_nil_left] at hd; cases hd
+  all_goals
+    (rcases q with _ | ⟨b, q'⟩
+     · rw [diverge_nil_right] at hd; cases hd)
+  all_goals
+    (by_cases hg : (b == "" && q'.isEmpty) = true
+     · rw [get_guard _ _ _ _ _ hg, get_guard _ _ _ _ _ hg]; exact Stab.rfl')
+  all_goals rw [diverge_cons] at hd
+  · -- doc: field removed
+    rename_i key rest hk fs i hi kk old he nvc pv hc hm ih
+    have hkey := fieldIndex_some_key hi he
+    have hnil := put_missing_nil _ _ _ _ _ _ hc hm
+    subst hnil
+    rw [diverge_nil_left] at hd
+    have hne : (kk == b) = false := by
+      cases hkb : kk == b with
+      | false => rfl
+      | true =>
+        simp at hkb; subst hkb; subst hkey
+        rw [segAlias_self] at hd; simp at hd
+    rw [get_cons_doc _ _ _ _ _ hg, get_cons_doc _ _ _ _ _ hg, getField_eraseIdx he hne]
+    exact Stab.rfl'
+  · -- doc: field replaced
+    rename_i key rest hk fs i hi kk old he nvc pv hc hm ih
+    have hkey := fieldIndex_some_key hi he
+    rw [get_cons_doc _ _ _ _ _ hg, get_cons_doc _ _ _ _ _ hg, listSet_eq_set, getField_set nvc he]
+    by_cases hb : fieldIndex fs b = some i
+    · have hkb := fieldIndex_some_key hb he
+      subst hkey; subst hkb
+      rw [segAlias_self] at hd
+      simp only [if_true] at hd
+      simp only [hb, if_true]
+      rw [getField_eq, hb]; simp only [he]
+      exact ih _ _ _ hc hd
+    · simp only [hb, if_false]; exact Stab.rfl'
+  · -- doc: new field, prepend
+    rename_i key rest hk fs hi hvm nvc pv hc hpre ih
+    rw [get_cons_doc _ _ _ _ _ hg, get_cons_doc _ _ _ _ _ hg, getField_cons]
+    by_cases hkb : (key == b) = true
+    · simp only [hkb, if_true]
+      simp at hkb; subst hkb
+      rw [segAlias_self] at hd
+      simp only [if_true] at hd
+      rw [getField_eq, hi]
+      exact stab_missing_of (ih _ _ _ hc hd)
+    · simp only [hkb, if_false, Bool.false_eq_true]; exact Stab.rfl'
+  · -- doc: new field, append
+    rename_i key rest hk fs hi hvm nvc pv hc hpre ih
+    rw [get_cons_doc _ _ _ _ _ hg, get_cons_doc _ _ _ _ _ hg, getField_append]
+    cases hb : fieldIndex fs b with
+    | some j => exact Stab.rfl'
+    | none =>
+      simp only
+      rw [getField_eq, hb]
+      by_cases hkb : (key == b) = true
+      · simp only [hkb, if_true]
+        simp at hkb; subst hkb
+        rw [segAlias_self] at hd
+        simp only [if_true] at hd
+        exact stab_missing_of (ih _ _ _ hc hd)
+      · simp only [hkb, if_false, Bool.false_eq_true]; exact Stab.rfl'
+  · -- array: element present
+    rename_i key rest hk xs index ha hr idx hlt old he nvc pv hc ih
+    have hidx : idx = index.toNat := rfl
+    clear_value idx; subst hidx
+    rw [get_cons_arr _ _ _ _ hg, get_cons_arr _ _ _ _ hg, listSet_eq_set]
+    cases hp : parseIndex b with
+    | none => exact Stab.rfl'
+    | some j =>
+      simp only
+      by_cases hj : index.toNat = j
+      · have hb := atoi_of_parseIndex hp
+        have hnn : 0 ≤ index := by
+          simp only [Bool.or_eq_true, decide_eq_true_eq, not_or] at hr; omega
+        have : index = (j : Int) := by omega
+        subst this
+        rw [segAlias_atoi ha hb] at hd
+        simp only [if_true] at hd
+        have hnm : nvc.isMissing = false := by
+          cases hm : nvc.isMissing with
+          | false => rfl
+          | true =>
+            have := put_missing_nil _ _ _ _ _ _ hc hm
+            subst this; rw [diverge_nil_left] at hd; cases hd
+        simp only [Int.toNat_natCast] at he hlt ⊢
+        simp only [hnm, Bool.false_eq_true, if_false, List.getElem?_set_self hlt, he]
+        exact ih _ _ _ hc hd
+      · rw [List.getElem?_set_ne hj]; exact Stab.rfl'
+  · -- array: padded
+    rename_i key rest hk xs index ha hr idx hlt hvm nvc pv hc ih
+    have hidx : idx = index.toNat := rfl
+    clear_value idx; subst hidx
+    have hnm := put_not_missing _ _ _ _ _ _ hc (by simpa using hvm)
+    have hge : xs.length ≤ index.toNat := Nat.le_of_not_lt hlt
+    rw [get_cons_arr _ _ _ _ hg, get_cons_arr _ _ _ _ hg]
+    cases hp : parseIndex b with
+    | none => exact Stab.rfl'
+    | some j =>
+      simp only [hnm, Bool.false_eq_true, if_false]
+      rcases Nat.lt_or_ge j xs.length with hjl | hjl
+      · rw [List.append_assoc, List.getElem?_append_left hjl]; exact Stab.rfl'
+      · rw [List.getElem?_eq_none hjl]
+        rcases Nat.lt_trichotomy j index.toNat with hlt' | heq | hgt
+        · have e3 : (xs ++ List.replicate (index.toNat - xs.length) V.null ++ [nvc])[j]? = some .null := by
+            rw [List.getElem?_append_left (by simp; omega), List.getElem?_append_right hjl]
+            rw [List.getElem?_replicate]; simp; omega
+          rw [e3]
+          simp only
+          rcases get_null q' false k with h' | h'
+          · right; exact ⟨rfl, h'⟩
+          · left; exact h'
+        · have hb := atoi_of_parseIndex hp
+          have hnn : 0 ≤ index := by
+            simp only [Bool.or_eq_true, decide_eq_true_eq, not_or] at hr; omega
+          have : index = (j : Int) := by omega
+          subst this
+          rw [segAlias_atoi ha hb] at hd
+          simp only [if_true] at hd
+          simp only [Int.toNat_natCast] at hge ⊢
+          have e3 : (xs ++ List.replicate (j - xs.length) V.null ++ [nvc])[j]? = some nvc := by
+            rw [List.getElem?_append_right (by simp; omega)]
+            have : j - (xs ++ List.replicate (j - xs.length) V.null).length = 0 := by simp; omega
+            rw [this]; rfl
+          rw [e3]
+          exact stab_missing_of (ih _ _ _ hc hd)
+        · have e3 : (xs ++ List.replicate (index.toNat - xs.length) V.null ++ [nvc])[j]? = none := by
+            apply List.getElem?_eq_none; simp; omega
+          rw [e3]; exact Stab.rfl'
+  · -- missing: create a document
+    rename_i key rest hk hvm nvc pv hc ih
+    rw [get_cons_missing, get_cons_doc _ _ _ _ _ hg, getField_cons]
+    by_cases hkb : (key == b) = true
+    · simp only [hkb, if_true]
+      simp at hkb; subst hkb
+      rw [segAlias_self] at hd
+      simp only [if_true] at hd
+      exact stab_missing_of (ih _ _ _ hc hd)
+    · simp only [hkb, if_false, Bool.false_eq_true, getField_nil]; exact Stab.rfl'
+
 end Lungo
